@@ -13,7 +13,7 @@ ANCHORS = ["src/pylife/strength/miner.py", "src/pylife/strength/solidity.py", "s
 SHARDS = {"quick": 4, "thorough": 16}
 WATCHDOG = {"quick": 900, "thorough": 3000}
 REQUIRED_CLASSES = {t: ["empty_top_class", "empty_bottom_class", "empty_interior_class", "single_class", "all_below_SD",
-                        "straddling_SD", "all_above_SD", "form:histogram", "form:collective_frame"]
+                        "straddling_SD", "all_above_SD", "form:histogram", "form:collective_frame", "order:reversed", "order:permuted"]
                     for t in ("quick", "thorough")}
 REQUIRED_MONITORS = ["damage==sum(n_i/N_i)", "additive_over_split", "proportional_to_cycles", "permutation_invariant",
                      "original<=haibach<=elementary", "gassner:elementary_damage==1", "gassner:haibach_damage==1",
@@ -198,6 +198,19 @@ def run_case(case, ctx):
         dm = float(np.asarray(acc.effective_damage_sum(coll)))
         ctx.check("effective_damage_sum_in_[0.3,1]", 0.3 <= dm <= 1.0 and _close(dm, min(1.0, max(0.3, 2.0 / A ** 0.25)), 1e-12),
                   observed=dm, expected=min(1.0, max(0.3, 2.0 / A ** 0.25)))
+    # member order must not matter for the prediction either: reversed and randomly permuted class order
+    for label, order_ in (("reversed", np.arange(m)[::-1]), ("permuted", rng.permutation(m))):
+        if m < 2:
+            break
+        ctx.tag("order:" + label)
+        coll_o = rebuilt(cyc, order_)
+        for rule, acc, k2 in (("elementary", wc.gassner_miner_elementary, k1), ("haibach", wc.gassner_miner_haibach, 2 * k1 - 1)):
+            Ng = float(np.asarray(acc.gassner_cycles(coll_o)))
+            if math.isinf(Ng):
+                continue
+            dmg = sum(own_damage(amps, cyc * (Ng / total), SD, ND, k1, k2))
+            ctx.check(f"gassner:{rule}_damage==1", _close(dmg, 1.0, 1e-9), observed=dmg, expected=1.0, tags=mech,
+                      detail={"gassner_cycles": Ng, "class_order": label, "order": order_, "amplitudes": amps, "cycles": cyc})
     # the Gassner-shifted curve evaluated at the highest occupied amplitude gives the same cycles
     g = wc.gassner_miner_elementary.gassner(coll)
     ng2 = float(np.asarray(g.cycles(top)))
